@@ -513,6 +513,89 @@ func (s *solo) recipeLaggingCommit() string {
 	return fmt.Sprintf("done(mode=%d,height-moved=%v,round=%d-of-%d)", mode, cur.Height != h, cur.Round-r0, R-r0)
 }
 
+// recipeLatePolkaForLockedBlock: the node locks B in round r0; the prevotes of a later round r1 for the SAME
+// block B arrive only after the node has left r1 (nothing to unlock, too late to re-lock: its lock round stays
+// r0).  A faulty proposer of a still later round then proposes another valid block C and names r1 as the
+// proposal's POL round.  Round r1 did have a polka - for B, not for C: the node must keep prevoting B.
+func (s *solo) recipeLatePolkaForLockedBlock() string {
+	net, nd, r := s.net, s.nd, s.r
+	rs := nd.CS.GetRoundState()
+	h := rs.Height
+	if !net.StartRoundOne(s.me, h) {
+		return "cannot-start"
+	}
+	rs = nd.CS.GetRoundState()
+	vals := rs.Validators
+	stubs := s.stubs(vals)
+	var stubPower int64
+	for _, g := range stubs {
+		stubPower += s.power(vals, g)
+	}
+	if 3*stubPower <= 2*vals.TotalVotingPower() {
+		return "stubs-below-quorum"
+	}
+	r0 := rs.Round
+	if g := net.ProposerAt(nd, r0); net.IsFaulty[g] {
+		kb := net.ByzBlock(nd, g, r0, 51, "")
+		if kb == nil {
+			return "cannot-build"
+		}
+		net.Send(g, s.me, net.ProposalMsgs(g, kb, h, r0, -1)...)
+	}
+	s.deliverAllToMe()
+	rs = nd.CS.GetRoundState()
+	if rs.ProposalBlock == nil {
+		return "no-proposal"
+	}
+	B := types.BlockID{Hash: rs.ProposalBlock.Hash(), PartSetHeader: rs.ProposalBlockParts.Header()}
+	s.sendVotes(s.votesFrom(stubs, tmproto.PrevoteType, h, r0, B))
+	s.deliverAllToMe()
+	if nd.CS.GetRoundState().LockedBlock == nil {
+		return "not-locked"
+	}
+	s.passRound(h, r0)
+	r1 := r0 + 1
+	if nd.CS.GetRoundState().Round != r1 {
+		return "not-in-r1"
+	}
+	late := s.votesFrom(stubs, tmproto.PrevoteType, h, r1, B)
+	s.passRound(h, r1)
+	cur := nd.CS.GetRoundState()
+	if cur.Height != h || cur.Round <= r1 {
+		return "not-past-r1"
+	}
+	// the polka for B of round r1 arrives now
+	s.sendVotes(late)
+	s.deliverAllToMe()
+	if lr := nd.CS.GetRoundState().LockedRound; lr != r0 {
+		return fmt.Sprintf("lock-round-moved-to-%d", lr-r0)
+	}
+	// the next rounds: whenever a stub proposes, it proposes a fresh block C with POL round r1
+	for att := 0; att < 4; att++ {
+		cur = nd.CS.GetRoundState()
+		if cur.Height != h {
+			return "decided"
+		}
+		rr := cur.Round
+		if g := net.ProposerAt(nd, rr); net.IsFaulty[g] {
+			if kb := net.ByzBlock(nd, g, rr, 53+att, ""); kb != nil && string(kb.BlockID.Hash) != string(B.Hash) {
+				pol := r1
+				if r.Intn(3) == 0 {
+					pol = r0 + int32(r.Intn(int(rr-r0)))
+				}
+				net.Send(g, s.me, net.ProposalMsgs(g, kb, h, rr, pol)...)
+				s.deliverAllToMe()
+				if c2 := nd.CS.GetRoundState(); c2.Height == h && c2.Round == rr && c2.Step == cstypes.RoundStepPropose {
+					net.FireTimeout(s.me)
+				}
+				return fmt.Sprintf("proposed-other-block-with-pol(rounds-after-lock=%d,pol-is-late-polka-round=%v)", rr-r0, pol == r1)
+			}
+		}
+		s.passRound(h, rr)
+	}
+	return "no-faulty-proposer-in-time"
+}
+
 func randHash(r *rand.Rand) []byte {
 	b := make([]byte, 32)
 	r.Read(b)
@@ -557,11 +640,13 @@ func runSolo(c *verdict.Ctx, idx int, tmp string) {
 	net.Start()
 	net.Pump()
 	maxRound := int32(0)
-	switch r.Intn(6) {
+	switch r.Intn(7) {
 	case 0:
 		c.Count("solo.recipe.relock:"+s.recipeRelockStalePolka(), 1)
 	case 1:
 		c.Count("solo.recipe.lagging-commit:"+s.recipeLaggingCommit(), 1)
+	case 2:
+		c.Count("solo.recipe.late-polka-for-locked-block:"+s.recipeLatePolkaForLockedBlock(), 1)
 	}
 	for k := 0; k < cfg.Steps; k++ {
 		if s.nd.Halted != "" {
